@@ -23,7 +23,8 @@ RULE = ("Grid (complete): initial store {old absent/present/active} x {new absen
         "silence, applied then close}, plus quota refusal of the copy, x 8 body shapes (CRLF, LF, mixed, no final newline, "
         "blank lines, multi-byte, empty, Unicode/VT/FF separators inside lines); double faults (quota refusal or forced NO at "
         "PUTSCRIPT/SETACTIVE/DELETESCRIPT followed by a second fault of any kind at the next occurrence of any step); a short "
-        "history on the same client before the rename (listing, change of the active script); native RENAMESCRIPT is run on the same states as the control. Then random stores, "
+        "history on the same client before the rename (listing, change of the active script); names with a twin that differs only "
+        "by Unicode normalisation, case or quoting; native RENAMESCRIPT is run on the same states as the control. Then random stores, "
         "names, bodies, fault placements and recv segmentation. Non-trivial: a fault fired or the target existed. "
         "Distinct = grid cells (state, fault, body) / (state class, fault, outcome) for random runs.")
 COMPONENTS = {"real": ["sievelib.managesieve.Client.renamescript and everything it calls"],
@@ -107,12 +108,33 @@ def all_cells():
         for bi in (0, 3):
             for ph in (1, 2, 3):
                 cells.append((si, ["h", ph], bi, 0))
+    # names that have a twin differing only by normalisation / case / quoting (no fault, and a fault at each step)
+    for si in range(len(st)):
+        for nv in range(1, len(NAME_VARIANTS)):
+            for pl in [None] + [(stp, F_NO) for stp in range(len(STEPS))]:
+                cells.append((si, ["n", nv, pl], 0, 0))
     return cells
 
 
-def build_store(srv, state, body, other_body=b"# other\r\nstop;\r\n"):
+# (old name, new name, name of an extra bystander that differs from the new (or old) name only by Unicode normalisation,
+#  case, or what quoting does to it)
+NAME_VARIANTS = [
+    ("old", "new", None),
+    ("old", "cafe\u0301", "caf\u00e9"),
+    ("old", "caf\u00e9", "cafe\u0301"),
+    ("old", "New", "new"),
+    ("\u212bngstr\u00f6m", "new", "\u00c5ngstr\u00f6m"),
+    ("a b", 'a"b', "a\\b"),
+    ("old", "x" * 300, "x" * 299),
+]
+
+
+def build_store(srv, state, body, other_body=b"# other\r\nstop;\r\n", names=0):
     old, new, byst, same = state
-    oldn, newn = b"old", (b"old" if same else b"new")
+    vo, vn, vextra = NAME_VARIANTS[names]
+    oldn, newn = vo.encode("utf-8"), (vo.encode("utf-8") if same else vn.encode("utf-8"))
+    if vextra is not None:
+        srv.scripts[vextra.encode("utf-8")] = b"# twin\r\nredirect \"t@example.org\";\r\n"
     if byst in ("one", "one-active", "two", "two-active"):
         srv.scripts[b"by1"] = b"# by1\r\ndiscard;\r\n"
     if old != "absent":
@@ -174,6 +196,7 @@ def run(ch, config, res):
     cell = config.get("cell")
     st_all = states()
     pl_all = placements()
+    names = 0
     if cell is not None:
         si, pi, bi, native = cell
         state = st_all[si]
@@ -186,6 +209,9 @@ def run(ch, config, res):
         elif isinstance(pi, list) and pi[0] == "h":
             placement = None
             prehist = pi[1]
+        elif isinstance(pi, list) and pi[0] == "n":
+            names = pi[1]
+            placement = None if pi[2] is None else tuple(pi[2])
         else:
             placement = pl_all[pi]
     else:
@@ -200,6 +226,7 @@ def run(ch, config, res):
                 pi = 1000 + wl.int("dplacement", len(dp))
                 placement = dp[pi - 1000]
             prehist = wl.int("prehist", 4)
+            names = wl.weighted("names", [3] + [1] * (len(NAME_VARIANTS) - 1))
             body = gen.body(wl, "body", hostile=False) if wl.flag("plainbody", 1, 2) else BODIES[wl.int("body", len(BODIES))]
     double = placement is not None and placement[0] == "double"
     quota = placement == ("quota",) or (double and FIRSTS[placement[1]] == "quota")
@@ -207,7 +234,7 @@ def run(ch, config, res):
     world = World(ch, cfg, client_impl=config.get("client", "real"), read_timeout=5)
     srv = world.server
     srv.data_variation = cell is None
-    oldn, newn = build_store(srv, state, body)
+    oldn, newn = build_store(srv, state, body, names=names)
     if quota:
         cfg.max_scripts = len(srv.scripts)   # the copy cannot be stored
     step_verbs = [b"RENAMESCRIPT"] if native else STEPS
